@@ -160,6 +160,13 @@ def t_edit(E):
     E.prove("C08.MaskCombinator.edit.weight_does_not_depend_on_the_tag_of_an_unchanged_flag", E.eq(w, SReal(spec_w)))
     E.prove("C08.MaskCombinator.edit.new_trace_does_not_depend_on_the_tag_of_an_unchanged_flag",
             check_view(E, new, mc, new_inner, post, TupleT((post,), T.d_primal(argdiffs.tail))))
+    # C23: flags are symbolic in value AND in concreteness (Python bool = eager call, traced = under jit); the same tag-free
+    # specification of the whole new trace (arguments, inner trace edited with the request at the new inner arguments, score,
+    # choices, return value) and of the weight is proved on every concrete-flag arm and on the traced arm
+    E.prove("C23.MaskCombinator.edit.concrete_and_traced_flags_give_the_same_trace_and_weight", E.And(
+        check_view(E, new, mc, new_inner, post, TupleT((post,), T.d_primal(argdiffs.tail))),
+        E.eq(new.fields["inner"], new_inner) if isinstance(new, Obj) and "inner" in new.fields else False,
+        E.eq(w, SReal(spec_w))))
     # C08: retdiff primal is the new return value - i.e. a Mask carrying the NEW flag (C14: valid iff the flag is True now;
     # C16: masked_iterate_final's update decides "advance or keep the value" from exactly this mask)
     E.prove("C08.MaskCombinator.edit.retdiff_primal",
